@@ -394,12 +394,33 @@ def valid_case(case):
         return False
 
 
+def run_fuzz_shard(shard):
+    """coverage-guided layer (Atheris): bytes -> structured case, the same oracle inside the target"""
+    from pbt import fuzz
+
+    _, tier, sd, k = shard
+    col = Collector()
+    seeds = [] if k % 2 == 0 else [bytes(range(1, 65)), b"\x02" * 40, b"\x07\x01\x09" * 20]
+    found, runs, note = fuzz.campaign("c05", 40000, sd, seeds)
+    col.evaluations += runs
+    col.count("atheris_executions", runs)
+    col.notes["atheris"] = [note + (" (empty corpus)" if not seeds else " (seeded corpus)")]
+    for f in found:
+        col.violation(f["sig"], f["case"], f["detail"])
+    return col
+
+
 def shards(tier, sd):
     n = 8 if tier == "quick" else 32
-    return [(tier, sd * 1000 + k) for k in range(n)]
+    out = [(tier, sd * 1000 + k) for k in range(n)]
+    if tier == "thorough":
+        out += [("fuzz", tier, sd * 1000 + 500 + k, k) for k in range(4)]
+    return out
 
 
 def run_shard(shard):
+    if shard[0] == "fuzz":
+        return run_fuzz_shard(shard)
     tier, sd = shard
     col = Collector()
     lex.selftest()
